@@ -481,4 +481,50 @@ theorem decompress_frame (d : Doc) (e : Ext) (d' : Doc) (out : Out) (hs : step d
   simp only [step] at hs; cases hs
   exact ⟨rfl, rfl, by simpa using docDecompress_keys e d.objects, fun k => by simpa using docDecompress_get e d.objects k⟩
 
+/-! ### resources: the reference case -/
+
+/-- the object a resource location lives in -/
+def locObj : ResLoc → ObjId
+  | .obj id => id
+  | .entry t => t
+
+theorem readLoc_set_other (os : Objects) (loc : ResLoc) (t : ObjId) (v : Obj) (h : locObj loc ≠ t) :
+    readLoc (os.set t v) loc = readLoc os loc := by
+  cases loc with
+  | obj id => simp only [readLoc, Objects.get_set]; simp [locObj] at h; simp [Ne.symm h]
+  | entry p => simp only [readLoc, Objects.get_set]; simp [locObj] at h; simp [Ne.symm h]
+
+/-- **C11, resources_monotone for `add_xobject` when the `XObject` entry is a REFERENCE** (the case the
+guard of `addXObject_monotone_partial` excludes): the sub-dictionary lives in another object `t`; if that
+object is not the one holding the resource dictionary itself (no aliasing), the resource dictionary is
+returned exactly as it was, and in the sub-dictionary every name other than the new one is unchanged. -/
+theorem addXObject_ref_monotone_partial (d : Doc) (pg : ObjId) (name : Bytes) (xid : ObjId) (d1 : Doc) (loc : ResLoc)
+    (res : Dict) (n g : Nat) (t : ObjId) (xd : Dict)
+    (hg : getOrCreateResources d pg = some (d1, loc)) (hr : readLoc d1.objects loc = some (.dict res))
+    (hx : Dict.get res kXObject = some (.ref n g)) (ht : objectMutId d1.objects (n, g) = some t)
+    (hxd : d1.objects.get t = some (.dict xd)) (hna : locObj loc ≠ t) :
+    readLoc (addXObject d pg name xid).1.objects loc = some (.dict res) ∧
+    ∃ xd', (addXObject d pg name xid).1.objects.get t = some (.dict xd') ∧
+      Dict.get xd' name = some (.ref xid.1 xid.2) ∧ ∀ m, m ≠ name → Dict.get xd' m = Dict.get xd m := by
+  have hh : Dict.has res kXObject = true := by simp [Dict.has, hx]
+  unfold addXObject
+  simp only [hg, hr, hh, if_true, hx, ht, hxd]
+  refine ⟨by rw [readLoc_set_other _ _ _ _ hna]; exact hr, Dict.set xd name (.ref xid.1 xid.2), by simp [Objects.get_set, hxd], ?_, ?_⟩
+  · simp [Dict.get_set_c11]
+  · intro m hm; simp [Dict.get_set_c11, Ne.symm hm]
+
+/-- without the no-aliasing hypothesis the statement is false: a resource dictionary (object 7) whose
+`XObject` entry refers back to itself loses its `Font` category when an XObject NAMED `Font` is added -/
+def walias : Doc :=
+  { trailer := [], maxId := 7, bookmarks := [], bmTable := [],
+    objects := [((2,0), .dict [(TYPE, .name PAGE), (kResources, .ref 7 0)]),
+                ((7,0), .dict [([70,111,110,116], .dict [([70,49], .ref 5 0)]), (kXObject, .ref 7 0)])] }
+
+theorem xobject_alias_witness :
+    (((walias.objects.get (7,0)).bind Obj.asDict).bind (fun r => Dict.get r [70,111,110,116])).bind Obj.asDict ≠ none ∧
+    ((((addXObject walias (2,0) [70,111,110,116] (5,0)).1.objects.get (7,0)).bind Obj.asDict).bind
+        (fun r => Dict.get r [70,111,110,116])).bind Obj.asDict = none := by
+  constructor <;> decide
+
+
 end Lopdf.Ed
